@@ -310,7 +310,7 @@ def wall_frame(rng):
 
 
 def wall_shape(rng):
-    m = rng.choice(['rect', 'L', 'L', 'L', 'gable', 'convex', 'trapezoid', 'holed', 'holed_convex'])
+    m = rng.choice(['rect', 'L', 'L', 'L', 'gable', 'gable', 'gable', 'convex', 'trapezoid', 'holed', 'holed_convex'])
     if m == 'rect':
         w, h = G.dy(rng.uniform(1, 12)), G.dy(rng.uniform(1, 6))
         return m, [(0.0, 0.0), (w, 0.0), (w, h), (0.0, h)], []
@@ -324,7 +324,13 @@ def wall_shape(rng):
         return m, lp, []
     if m == 'gable':
         w, h = G.dy(rng.uniform(3, 12)), G.dy(rng.uniform(2, 5)); t = G.dy(rng.uniform(0.5, 3))
-        return m, [(0.0, 0.0), (w, 0.0), (w, h), (w / 2, h + t), (0.0, h)], []
+        lp = [(0.0, 0.0), (w, 0.0), (w, h), (G.dy(w * rng.choice([0.5, 0.3, 0.7])), h + t), (0.0, h)]
+        which = rng.choice(['peak_up', 'peak_up', 'peak_down', 'pointed_left', 'pointed_right'])
+        if which == 'peak_down': lp = [(x, h + t - y) for x, y in lp][::-1]
+        elif which == 'pointed_left': lp = [(h + t - y, x) for x, y in lp]
+        elif which == 'pointed_right': lp = [(y, x) for x, y in lp][::-1]
+        k = rng.randrange(len(lp)); lp = lp[k:] + lp[:k]
+        return m, lp, []
     if m == 'trapezoid':
         w, h = G.dy(rng.uniform(4, 12)), G.dy(rng.uniform(2, 5)); a = G.dy(rng.uniform(0.5, 1.5))
         return m, [(0.0, 0.0), (w, 0.0), (w - a, h), (a, h)], []
